@@ -350,10 +350,9 @@ class DataHeader(BitsInterface, BytesInterface):
                 f"from_bits not implemented for {dpf} (val {bits[4:8]})"
             )
 
-        if ba2int(bits[80:96]) > 0:
-            # reserved values of SAP / format elements are folded by their enums and unused bits are not kept,
-            # received crc must be verified on received bits, not on re-serialized fields
-            header.crc_ok = CRC16.check(
-                bits[:80].tobytes(), ba2int(bits[80:96]), CrcMasks.DataHeader
-            )
+        # reserved values of SAP / format elements are folded by their enums, unused bits are not kept and crc value 0
+        # is (re)generated by the constructor, received crc must be verified on received bits
+        header.crc_ok = CRC16.check(
+            bits[:80].tobytes(), ba2int(bits[80:96]), CrcMasks.DataHeader
+        )
         return header
